@@ -72,6 +72,8 @@ def explore(core, rng, tier, seed, search=False):
     sc = []
     for _ in range(60):
         xs = [rng.choice([0, 0, 0, rng.randrange(-5, 6)]) for _ in range(rng.randrange(0, 6))]
+        ys = [rng.choice([0, 0, 2, 4, 7, 1, 3]) for _ in range(rng.randrange(0, 5))]
+        sc += ["coalm [%s]" % ",".join(map(str, ys))]
         sc += ["coal [%s]" % ",".join(map(str, xs)), "iszero %d" % rng.randrange(-2, 3), "tern %d %d %d" % (rng.randrange(2), rng.randrange(9), rng.randrange(9)),
                "zero", "zeroof %d" % rng.randrange(-9, 9), "iszerom %d" % rng.randrange(-4, 5), "iszeros %d" % rng.choice([0, 0, 7, 7, 1, 3]), "terncast %d %d %d %d" % (rng.randrange(2), rng.randrange(2), rng.randrange(9), rng.randrange(9)),
                "isnil %d" % rng.randrange(7), "ref %d" % rng.randrange(-9, 9), "derefzero %d %d" % (rng.randrange(2), rng.randrange(-9, 9))]
